@@ -483,7 +483,11 @@ func c07Gen(r *rand.Rand, tier string) *sim.Scn {
 			case x < 30:
 				s.Ops = append(s.Ops, sim.Op{K: "sleep", A: 1000})
 				if r.IntN(100) >= pEmpty {
-					s.Ops = append(s.Ops, sim.Op{K: "tx", A: r.Int64N(4)}, sim.Op{K: "reap"})
+					if r.IntN(8) == 0 {
+						s.Ops = append(s.Ops, sim.Op{K: "same", A: r.Int64N(2)})
+					} else {
+						s.Ops = append(s.Ops, sim.Op{K: "tx", A: r.Int64N(4)}, sim.Op{K: "reap"})
+					}
 				}
 				s.Ops = append(s.Ops, sim.Op{K: "produce"})
 			case x < 60:
